@@ -190,7 +190,8 @@ class HCreateSolution(Handler):
         # each stated concentration, in its own unit
         if pc is not None:
             for s, (cval, num, den), cstr in zip(solutes, pc, concs):
-                if R.per(s, num) == 0 or den == 'U' or not (cval > 0):
+                # (per unit of activity is a concentration like any other when the solution holds an enzyme: '0.3 U/U' of one of two)
+                if R.per(s, num) == 0 or (den == 'U' and not R.measure(res.contents, 'U') > 0) or not (cval > 0):
                     problems.append(('unreachable_concentration_accepted', s.name, cstr))
                     M.violate(['C05', 'C03'], 'SOLN', f'C05:unreachable_concentration_accepted:{num}/{den}:{R.kind(s)}',
                               {'concentration': cstr, 'solute': s.name, 'result': F.snap_contents(res)})
